@@ -7,10 +7,12 @@ from . import common, progs, c16, c08
 ID = 'C03'
 LEVEL = 'exploration'
 TIERS = {
-    'quick': {'cases': 2400, 'wall': 100, 'chunk': 12},
-    'thorough': {'cases': 100000, 'wall': 1500, 'chunk': 24},
+    'quick': {'cases': 132 + 2400, 'wall': 100, 'chunk': 12},
+    'thorough': {'cases': 132 + 100000, 'wall': 1500, 'chunk': 24},
 }
-RULE = ('case i: one seeded program from the broadest mix - time-travel programs (45%), sequential programs '
+RULE = ('cases 0..131: 66 fixed rare-shape programs (defeat used in exactly one unusual place: loop clause, preempt, else '
+        'branch, nested call, while condition, behind a return, code-generation order, value of a defeat call leaving a try) on '
+        'two inputs each (seed independent). Further cases: one seeded program from the broadest mix - time-travel programs (45%), sequential programs '
         '(15%), programs with a planted runtime fault or its harmless twin (20%), exit-analysis shapes of C16 '
         'that hidc accepts (10%), scope/array programs of C08 (10%) - in a checked build (any outcome: a '
         'runtime fault must end in its error loop, a stack exhaustion in stack_overflow) and, when the checked '
@@ -43,10 +45,23 @@ def judge(p, argv, W, stack, unchecked):
     return probs, ev
 
 
+N_RARE = 132
+
+
 def case(seed, idx, tier):
     rnd = case_rng(seed, ID, idx)
-    p, argv, W, kind = draw(rnd)
-    stack = rnd.choice((20, 40, 70, 120)) if idx % 4 == 3 else 2500
+    if idx < N_RARE:
+        # seed-independent: the rare shapes (defeat used in exactly one unusual place) with fixed random
+        # choices, each on two inputs - whole-program conditions of the code generator do not depend on luck
+        import random
+        from ..gen_tt import rare_shape_program
+        p, argv = rare_shape_program(random.Random(7000 + idx // 2))
+        if idx % 2:
+            argv = [str(int(argv[0]) + 3)]
+        W, kind = (2, 3, 4, 8)[idx % 4], 'rare'
+    else:
+        p, argv, W, kind = draw(rnd)
+    stack = rnd.choice((20, 40, 70, 120)) if (idx % 4 == 3 and idx >= N_RARE) else 2500
     res = common.new_result()
     probs, ev = judge(p, argv, W, stack, False)
     if ev.built.error_kind == 'rejected' or ev.ref.outcome in ('UNSPECIFIED', 'UNDEFINED'):
